@@ -431,7 +431,7 @@ def run(ctx):
     disagreements = []
 
     # ---- (c) margins ---------------------------------------------------------------------------
-    nb = 600 if tier == "quick" else 30000
+    nb = 600 if tier == "quick" else 100000
     req, cases = [], []
     for _ in range(nb):
         src = gen_block(rng)
@@ -468,7 +468,7 @@ def run(ctx):
     # the printer side: write_indented_block + flush at an indentation level, against the model; and the whole path through a template
     import io
     req2, cases2 = [], []
-    for bi, (text, got) in enumerate(cases[: (300 if tier == "quick" else 6000)]):
+    for bi, (text, got) in enumerate(cases[: (300 if tier == "quick" else 30000)]):
         level = bi % 4
         pr = pygen.PythonPrinter(io.StringIO())
         pr.indent = level
@@ -519,7 +519,7 @@ def run(ctx):
                 disagreements.append(("adjust_whitespace", text, dec(m), got))
 
     # ---- (b) scope -------------------------------------------------------------------------------
-    ns = 3000 if tier == "quick" else 90000
+    ns = 3000 if tier == "quick" else 300000
     req, cases = [], []
     for i_case in range(ns):
         sts = gen_stmts(rng, 2)
@@ -574,7 +574,7 @@ def run(ctx):
             ctx.violation({"template": src, "context": sorted(ctxnames), "result": out}, "strict_undefined raised although no name is genuinely missing (or a needed name was not fetched)", tags=[tag])
 
     # ---- (a) expressions ---------------------------------------------------------------------------
-    ne = 4000 if tier == "quick" else 150000
+    ne = 4000 if tier == "quick" else 500000
     req, cases = [], []
     for i in range(ne):
         simple = i % 2 == 0
